@@ -17,6 +17,10 @@
      fixed          false = code as found (cond_wait BEFORE the first check of the worker states, D7)
                     true  = after the fix: (check; if (!done) wait)
      shared_common  true  = the workers allocate through the one shared cholmod_common (code as found, D15)
+                    false = after the fix for D15: walk_descents starts one cholmod_common per worker (commons[j]) before the
+                            first pthread_create, worker j calls CHOLMOD through commons[j] only, the coordinator frees trial j's
+                            x_c through commons[j] and finishes commons[j] after the last pthread_join; the caller's common c is
+                            only read (print level, error handler) while the commons are set up
 *)
 From Coq Require Import List Arith Bool.
 Import ListNotations.
@@ -39,7 +43,8 @@ Inductive wpc :=
 | WExited.      (* after pthread_exit *)
 
 Inductive cpc :=
-| CCreate (k : nat)    (* 1007-1009 pthread_create(&threads[k]) *)
+| CCreate (k : nat)    (* 1007-1009 pthread_create(&threads[k]); CCreate 0 also stands for everything before the first
+                          pthread_create, in particular (D15 fix) cholmod_l_start(&commons[i]) for every i *)
 | CLockA               (* 1023 lock *)
 | CSetRun              (* 1024-1031 holding: for j in block: alpha[j] = &alpha[i*N+j]; state[j] = RUN; cond_broadcast *)
 | CUnlockA             (* 1032 unlock *)
@@ -53,11 +58,13 @@ Inductive cpc :=
 | CSetTerm             (* 1108-1110 holding: all states = TERMINATE; broadcast *)
 | CUnlockT             (* 1111 unlock *)
 | CJoin (k : nat)      (* 1114-1115 pthread_join(threads[k]) *)
-| CCleanup             (* 1117-1132 internal: free H1, x_c of every trial (through common) *)
+| CCleanup             (* 1117-1132 internal: free H1, x_c of every trial (through the shared common as found; after the D15
+                          fix through commons[k], followed by cholmod_l_finish(commons[k])) *)
 | CDone.
 
-(* shared locations.  LOut j lumps descent_trials[j].{residual, x_c (pointer and contents), H1, nH1} *)
-Inductive loc := LState (j : nat) | LAlpha (j : nat) | LOut (j : nat) | LX | LCommon.
+(* shared locations.  LOut j lumps descent_trials[j].{residual, x_c (pointer and contents), H1, nH1};
+   LCommon = the caller's cholmod_common (argument c, the one common of the fit); LWCommon j = commons[j], worker j's own (D15 fix) *)
+Inductive loc := LState (j : nat) | LAlpha (j : nat) | LOut (j : nat) | LX | LCommon | LWCommon (j : nat).
 Inductive access := ANone | ARead | AWrite.
 
 (* what the real thread does at a step, for the schedule-forcing correspondence *)
@@ -217,18 +224,22 @@ Definition label (s : state) (t : nat) : oplabel :=
 Definition loc_eqb (a b : loc) : bool :=
   match a, b with
   | LState i, LState j | LAlpha i, LAlpha j | LOut i, LOut j => i =? j
+  | LWCommon i, LWCommon j => i =? j
   | LX, LX | LCommon, LCommon => true | _, _ => false end.
 
 Definition acc (s : state) (t : nat) (l : loc) : access :=
   match t with
   | 0 => match cp s, l with
+         | CCreate k, LWCommon j => if negb shared_common && (k =? 0) && (j <? N) then AWrite else ANone (* D15 fix: cholmod_l_start(&commons[j]), .print/.error_handler = *)
+         | CCreate k, LCommon => if negb shared_common && (k =? 0) then ARead else ANone               (* D15 fix: c->print, c->error_handler *)
          | CSetRun, LState j | CSetRun, LAlpha j => if in_block (blk s) j then AWrite else ANone     (* 1027-1029 *)
          | CLoopB true, LState j => if in_block (blk s) j then ARead else ANone                        (* 1043 *)
          | CRead, LOut j | CRead, LAlpha j => if in_block (blk s) j then ARead else ANone              (* 1063-1099 *)
          | CRead, LX => AWrite                                                                         (* 1072 *)
          | CSetTerm, LState j => if j <? N then AWrite else ANone                                      (* 1109 *)
          | CCleanup, LOut j => if j <? N then AWrite else ANone                                        (* 1119-1123 *)
-         | CCleanup, LCommon => AWrite                                                                 (* 1122 *)
+         | CCleanup, LCommon => if shared_common then AWrite else ANone                                (* 1122 as found: free_dense(.., c) *)
+         | CCleanup, LWCommon j => if negb shared_common && (j <? N) then AWrite else ANone            (* D15 fix: free_dense(.., commons[j]); cholmod_l_finish(commons[j]) *)
          | _, _ => ANone end
   | S j => if j <? N then
            match wp s j, l with
@@ -237,7 +248,9 @@ Definition acc (s : state) (t : nat) (l : loc) : access :=
            | WCompute1, LAlpha k | WCompute2, LAlpha k => if k =? j then ARead else ANone              (* 839-840 *)
            | WCompute1, LOut k | WCompute2, LOut k => if k =? j then AWrite else ANone                 (* 823-856 *)
            | WCompute1, LX | WCompute2, LX => ARead                                                    (* 840 *)
-           | WCompute1, LCommon | WCompute2, LCommon => if shared_common then AWrite else ANone        (* 831, 855 (copy/free_dense) *)
+           | WCompute1, LCommon | WCompute2, LCommon => if shared_common then AWrite else ANone        (* 831, 855 (copy/free_dense) through trial->c = c as found *)
+           | WCompute1, LWCommon k | WCompute2, LWCommon k =>
+               if negb shared_common && (k =? j) then AWrite else ANone                                (* D15 fix: the same calls, trial->c = &commons[j] *)
            | _, _ => ANone end
            else ANone
   end.
